@@ -262,6 +262,11 @@ def _at_most_len(upper: V, recv: V) -> bool:
         stop = r.args[-1] if len(r.args) <= 2 else r.args[1]      # a value drawn from range(.., stop) is < stop
         if isinstance(stop, V) and _at_most_len(stop, recv):
             return True
+    if isinstance(upper, Term) and upper.op == "bin" and upper.args[0] == "-" and isinstance(upper.args[1], Term) \
+            and upper.args[1].op == "len" and upper.args[1].args[0].key() == rk:
+        sub = upper.args[2]
+        if (isinstance(sub, Const) and isinstance(sub.value, int) and sub.value >= 0) or (isinstance(sub, Term) and sub.op == "len"):
+            return True             # len(recv) - (something non-negative)
     if isinstance(upper, Term) and upper.op == "max" and len(upper.args) == 2:
         a, b = upper.args
         for x, y in ((a, b), (b, a)):
@@ -320,12 +325,19 @@ def draw_nonempty(v: V, p: Path, e: Event) -> Optional[bool]:
             return True
     if isinstance(v, Term) and v.op == "call" and v.args and v.args[0] == "builtins.chr":
         return True                 # chr() is a one-character string
+    if isinstance(v, Term) and v.op == "call" and v.args and v.args[0] == "builtins.next" and "builtins.chr" in v.key():
+        # next(<characters>, None) on a path that established the result is not the default: one of the characters
+        vk0 = v.key()
+        for fk, t, b in p.facts[:e.nfacts]:
+            if isinstance(t, Term) and t.op == "is" and not b and any(isinstance(a, V) and a.key() == vk0 for a in t.args) \
+                    and any(isinstance(a, Const) and a.value is None for a in t.args):
+                return True
     if _known_nonempty(v, p, e):
         return True
     vk = v.key()
     for fk, t, b in p.facts[:e.nfacts]:
         # `if not v: <replace / raise>` leaves `v` truthy on the fall-through path, whatever its kind
-        if fk == vk and b:
+        if (fk == vk or fk == f"len({vk})") and b:
             return True
         if isinstance(t, Term) and t.op == "eq" and {a.key() for a in t.args if isinstance(a, V)} == {f"len({vk})", "0"}:
             return not b
